@@ -40,6 +40,11 @@ func auctionIdentity(a *Term) string {
 		return "id:" + shortKey(a)
 	}
 	if a.Op == "param" {
+		// the value parameter of a callback handed to a walk over the Auction collection: the iterated auction, like an
+		// element of the list the walk would have collected
+		if p, ok := a.V.(*ssa.Parameter); ok && curWorld != nil && curWorld.walkValueParamOf(p) == "Auction" {
+			return "elem:walk<Auction>"
+		}
 		return "param:" + a.Name
 	}
 	// a freshly built auction: its Id
